@@ -60,6 +60,16 @@ pub fn pool(variant: u8) -> Vec<(&'static str, Value)> {
         ("2^53", int(1 << 53)),
         ("i64min", int(i64::MIN)),
         ("i64max", int(i64::MAX)),
+        // integers that are not doubles, next to the doubles they round to
+        ("2^53+1", int((1 << 53) + 1)),
+        ("i64max-1", int(i64::MAX - 1)),
+        ("2^62+1", int((1 << 62) + 1)),
+        ("2^63f", fl(9223372036854775808.0)),
+        ("2^62f", fl(4611686018427387904.0)),
+        // the same f32 built through From and through serde (construction variants)
+        ("f32 0.1", if variant == 0 { Value::scalar(f64::from(0.1f32)) } else { liquid::model::to_value(&0.1f32).expect("f32 converts") }),
+        ("f32 16777217", if variant == 0 { Value::scalar(f64::from(16777217.0f32)) } else { liquid::model::to_value(&16777217.0f32).expect("f32 converts") }),
+        ("f32 0.3", if variant == 2 { Value::scalar(f64::from(0.3f32)) } else { liquid::model::to_value(&0.3f32).expect("f32 converts") }),
         ("0.0", fl(0.0)),
         ("-0.0", fl(-0.0)),
         ("0.5", fl(0.5)),
@@ -355,7 +365,7 @@ fn rand_oracle(c: &RandPair, obs: &mut Obs) -> Check {
 }
 
 pub fn run(ctx: &Ctx) {
-    ctx.set_rule("E2: every ordered pair of a 73-value pool (nil, booleans, integers incl. 2^53 and the i64 bounds, floats incl. +-0.0, 2^53, infinities, strings empty / blank / numeric-looking / 'true' / mixed case / non-ASCII / date-looking, dates, date-times denoting one instant in three offsets, empty/blank markers, arrays and objects nested two deep, two-key and six-key objects) with every container built independently three ways (insertion order, reverse order, after a different capacity history); each pair is compared through Value ==/partial_cmp/< <= > >=, ValueCow (Owned x Borrowed), ValueViewCmp, typed PartialEq, and through templates (== != <> < > <= >=, unless, case/when, contains, uniq); the whole pair matrix is recomputed in 4 fresh processes (different hash seeds) and must be identical. E1: random pairs of recursive values and their rebuilt copies. Oracle: the coherence laws of the statement. Non-trivial = cross-kind pair or a container; distinct by pair.");
+    ctx.set_rule("E2: every ordered pair of an 81-value pool (nil, booleans, integers incl. 2^53 and the i64 bounds, floats incl. +-0.0, 2^53, infinities, strings empty / blank / numeric-looking / 'true' / mixed case / non-ASCII / date-looking, dates, date-times denoting one instant in three offsets, empty/blank markers, arrays and objects nested two deep, two-key and six-key objects) with every container built independently three ways (insertion order, reverse order, after a different capacity history); each pair is compared through Value ==/partial_cmp/< <= > >=, ValueCow (Owned x Borrowed), ValueViewCmp, typed PartialEq, and through templates (== != <> < > <= >=, unless, case/when, contains, uniq); the whole pair matrix is recomputed in 4 fresh processes (different hash seeds) and must be identical. E1: random pairs of recursive values and their rebuilt copies. Oracle: the coherence laws of the statement. Non-trivial = cross-kind pair or a container; distinct by pair.");
     ctx.assume("NaN is excluded (statement); transitivity is not claimed");
     let n = pool(0).len() as u64;
     ctx.exhaustive("pool_pairs", n * n * 2, move |i| Some(PoolPair { i: (i / 2 / n) as usize, j: (i / 2 % n) as usize, v: (i % 2) as u8 }), pool_oracle);
